@@ -127,6 +127,13 @@ fn footprint_for(state: &WarpState, warp: WarpId, scope: NodeId, honest: bool) -
             WarpOp::UpsertEdge { warp_id, record } if warp_id == warp => {
                 fp.n_write.insert_with_warp(warp, record.from);
                 fp.e_write.insert_with_warp(warp, record.id);
+                // an upsert that moves an existing edge also writes its previous source's adjacency
+                // (enforced since fix 7993b16: FootprintGuard::check_op_in)
+                if let Some(prev) = store.iter_edges().flat_map(|(_, v)| v.iter()).find(|r| r.id == record.id) {
+                    if prev.from != record.from {
+                        fp.n_write.insert_with_warp(warp, prev.from);
+                    }
+                }
             }
             WarpOp::DeleteEdge { warp_id, from, edge_id } if warp_id == warp => {
                 fp.n_write.insert_with_warp(warp, from);
